@@ -1,7 +1,8 @@
 """C05 — event delivery order, halting and unsubscription are exact (DESIGN §5 C05).
 
-A case is one operation history on one fresh event source:
-  {"declared":[et..], "acceptAll":bool, "ops":[action..], "scripts":[[hid, [script..]], ..]}
+A case is one operation history on one or two fresh event sources:
+  {"sources":[{"declared":[et..], "acceptAll":bool, "lazy":bool}, ..], "ops":[action..], "scripts":[[hid, [script..]], ..]}
+(every action names its source with "s"; event type numbers are real classes with inheritance, see PARENT)
 with the action / script / return-value vocabulary of lean/Drivers/C05.lean (the case *is* the driver request, plus
 optional "via"/"v" fields that select which of several equivalent Python spellings / concrete return values is used).
 Handlers are real Python callables subscribed to a real `EventMixin` subclass; the k-th invocation of handler `hid`
@@ -10,7 +11,8 @@ import gc, sys, types, weakref, io, contextlib, itertools, collections
 import common, poxenv
 from common import Check
 
-N_ET = 3
+N_ET = 6
+PARENT = {3: 0, 4: 2, 5: 3}          # Ev3(Ev0), Ev4(Ev2), Ev5(Ev3); Ev0, Ev1, Ev2 derive from Event
 FUEL = 200000
 
 
@@ -66,10 +68,13 @@ class C05(Check):
         import pox.lib.revent.revent as rv
         self.rv = rv
         self.Ev = []
+        def __init__(self, fid=None):
+            self.fid = fid
         for i in range(N_ET):
-            def __init__(self, fid=None):
-                self.fid = fid
-            self.Ev.append(type("Ev%d" % i, (rv.Event,), {"__init__": __init__, "idx": i}))
+            base = self.Ev[PARENT[i]] if i in PARENT else rv.Event
+            d = {"idx": i}
+            if i not in PARENT: d["__init__"] = __init__
+            self.Ev.append(type("Ev%d" % i, (base,), d))
         self.Point = collections.namedtuple("Point", "a b")
 
     # ------------------------------------------------------------------ concrete return values
@@ -93,11 +98,12 @@ class C05(Check):
         raise ValueError(k)
 
     def _exc(self, e):
-        return {"revent": self.rv.ReventError, "key": KeyError, "other": Boom}[e]("scripted")
+        return {"revent": self.rv.ReventError, "key": KeyError, "attr": AttributeError, "other": Boom}[e]("scripted")
 
     @staticmethod
     def _kind(e):
-        return {"ReventError": "revent", "KeyError": "key", "Boom": "other", "TypeError": "other"}.get(type(e).__name__, type(e).__name__)
+        return {"ReventError": "revent", "KeyError": "key", "AttributeError": "attr", "Boom": "other",
+                "TypeError": "other"}.get(type(e).__name__, type(e).__name__)
 
     # ------------------------------------------------------------------ the implementation run
     def impl(self, case):
@@ -112,16 +118,17 @@ class C05(Check):
 
     def _impl(self, case):
         rv, Ev = self.rv, self.Ev
-        decl = True if case["acceptAll"] else set(Ev[i] for i in case["declared"])
-        ns = {"_eventMixin_events": decl}
-        if case.get("lazy"): ns["__init__"] = lambda self_: None        # a subclass that never calls EventMixin.__init__
-        Src = type("Src", (rv.EventMixin,), ns)
-        src = Src()
+        srcs = []
+        for i, sd in enumerate(case["sources"]):
+            ns = {"_eventMixin_events": True if sd["acceptAll"] else set(Ev[t] for t in sd["declared"])}
+            if sd.get("lazy"): ns["__init__"] = lambda self_: None        # a subclass that never calls EventMixin.__init__
+            srcs.append(type("Src%d" % i, (rv.EventMixin,), ns)())
         base = rv._nextEventID
         scripts = {h: l for h, l in case["scripts"]}
         log, snaps, rmchecks, addchecks, subs = [], {}, [], [], []
         calls, funcs, owners, sinks, keep = {}, {}, {}, {}, []
         state = {"fid": 0}
+        EMPTY = {"halt": None, "acts": [], "ret": {"k": "none"}}
 
         def entry_view(x):
             prio, h, once, eid = x
@@ -136,12 +143,12 @@ class C05(Check):
                 hid = h.hid
             return [prio, hid, bool(once), eid - base, weak]
 
-        def dump():
+        def dump(i):
             return [[k.idx if isinstance(k, type) else str(k), [entry_view(x) for x in l]]
-                    for k, l in getattr(src, "_eventMixin_handlers", {}).items()]      # the dict does not exist before lazy initialisation
+                    for k, l in getattr(srcs[i], "_eventMixin_handlers", {}).items()]   # no dict before lazy initialisation
 
-        def present(pred, et=None):
-            for k, l in dump():
+        def present(i, pred, et=None):
+            for k, l in dump(i):
                 if et is not None and k != et: continue
                 if any(pred(e) for e in l): return True
             return False
@@ -149,9 +156,11 @@ class C05(Check):
         def run_handler(hid, event):
             k = calls.get(hid, 0); calls[hid] = k + 1
             fid = event.fid
-            log.append(["call", fid, hid])
+            si = [j for j, s_ in enumerate(srcs) if s_ is event.source]
+            log.append(["call", fid, si[0] if si else -1, hid])
             sl = scripts.get(hid, [])
-            sc = sl[k] if k < len(sl) else {"acts": [], "ret": {"k": "none"}}
+            sc = sl[k] if k < len(sl) else EMPTY
+            if sc["halt"] is not None: event.halt = sc["halt"]
             try:
                 for a, guarded in sc["acts"]:
                     try:
@@ -164,11 +173,11 @@ class C05(Check):
                 if sc["ret"]["k"] == "exc":
                     raise self._exc(sc["ret"]["e"])
             except Exception as e:
-                log.append(["ret", fid, hid, ["exc", self._kind(e)]])
+                log.append(["ret", fid, hid, ["exc", self._kind(e)], bool(event.halt)])
                 raise
             ret = sc["ret"]
             name = ret["k"] if ret["k"] not in ("tup1", "tup2") else ([ret["k"], ret["h"]] + ([ret["r"]] if ret["k"] == "tup2" else []))
-            log.append(["ret", fid, hid, name])
+            log.append(["ret", fid, hid, name, bool(event.halt)])
             return self._retval(ret)
 
         def func_of(hid):                       # plain function, one per hid: strong subscriptions and removal by handler
@@ -190,13 +199,14 @@ class C05(Check):
             return func_of(hid)
 
         def perform(a):
-            op = a["op"]
+            op, i = a["op"], a["s"]
+            src = srcs[i]
             if op == "add":
                 et, hid, weak = a["et"], a["hid"], a.get("weak")
                 h = method_of(hid, weak) if weak is not None else func_of(hid)
                 kw = dict(once=a["once"], weak=weak is not None, priority=a["prio"])
                 via = a.get("via", 0) % 5
-                before = dump()
+                before = dump(i)
                 try:
                     if via == 1: r = src.addListenerByName("Ev%d" % et, h, **kw)
                     elif via == 2: r = src.add_listener(h, event_type=Ev[et], **kw)
@@ -206,9 +216,9 @@ class C05(Check):
                         r = src.add_listener(h, **kw)
                     else: r = src.addListener(Ev[et], h, **kw)
                 except Exception as e:
-                    addchecks.append([et, self._kind(e), before == dump()]); raise
-                addchecks.append([et, "ok", None])
-                subs.append([r[1] - base, r[0].idx, hid, bool(a["once"]), weak])
+                    addchecks.append([i, et, self._kind(e), before == dump(i)]); raise
+                addchecks.append([i, et, "ok", None])
+                subs.append([i, r[1] - base, r[0].idx, hid, bool(a["once"]), weak])
                 return ["pair", r[0].idx, r[1] - base]
             if op == "bind":
                 ets, hb, weak = a["ets"], a["base"], a.get("weak")
@@ -227,7 +237,7 @@ class C05(Check):
                 if via == 1: r = src.addListeners(sink, weak=weak is not None, priority=a["prio"])
                 elif via == 2: r = sink.listenTo(src, weak=weak is not None, priority=a["prio"])
                 else: r = rv.autoBindEvents(sink, src, weak=weak is not None, priority=a["prio"])
-                for t, e in r: subs.append([e - base, t.idx, hb + t.idx, False, weak])
+                for t, e in r: subs.append([i, e - base, t.idx, hb + t.idx, False, weak])
                 return ["pairs", [[t.idx, e - base] for t, e in r]]
             if op in ("rmh", "rme", "rmp"):
                 if op == "rmh":
@@ -240,13 +250,13 @@ class C05(Check):
                     arg, scope = (Ev[a["et"]], base + a["eid"]), (a["et2"] if a.get("et2") is not None else a["et"])
                     pred = lambda e, _x=a["eid"]: e[3] == _x
                 second = a.get("et") if op != "rmp" else a.get("et2")
-                was = present(pred, scope)
+                was = present(i, pred, scope)
                 form = op + ("+et" if second is not None else "")
                 try:
                     r = src.removeListener(arg, Ev[second]) if second is not None else src.removeListener(arg)
                 except Exception as e:
-                    rmchecks.append([form, was, present(pred, scope), self._kind(e)]); raise
-                rmchecks.append([form, was, present(pred, scope), "ok"])
+                    rmchecks.append([form, was, present(i, pred, scope), self._kind(e)]); raise
+                rmchecks.append([form, was, present(i, pred, scope), "ok"])
                 return bool(r)
             if op == "clear":
                 src.clearHandlers(); return "unit"
@@ -261,7 +271,7 @@ class C05(Check):
                 return "unit"
             if op == "raise":
                 et, fid = a["et"], state["fid"]; state["fid"] += 1
-                snaps[fid] = {"et": et, "noerr": a["noerr"], "form": a["form"], "pos": len(log),
+                snaps[fid] = {"s": i, "et": et, "noerr": a["noerr"], "form": a["form"], "pos": len(log),
                               "snap": [entry_view(x) for x in getattr(src, "_eventMixin_handlers", {}).get(Ev[et], [])], "result": None}
                 f = src.raiseEventNoErrors if a["noerr"] else src.raiseEvent
                 try:
@@ -273,6 +283,7 @@ class C05(Check):
                 return res
             raise ValueError(op)
 
+        n = len(srcs)
         drops = []
         for a in case["ops"]:
             try:
@@ -282,40 +293,47 @@ class C05(Check):
             else:
                 log.append(["res", r])
             if a["op"] == "drop":
-                drops.append([a["o"], len(log), dump()])
+                drops.append([a["o"], len(log), [dump(i) for i in range(n)]])
         started = set(e[1] for e in log if e[0] == "call")
         frames = []
         for fid in sorted(snaps):
             s = snaps[fid]
             if fid in started or (isinstance(s["result"], list) and s["result"][0] == "event"):
-                frames.append([fid, s["et"], [e[3] for e in s["snap"]]])
-        return {"log": log, "frames": frames, "final": dump(), "count": sum(len(l) for _, l in dump()),
+                frames.append([fid, s["s"], s["et"], [e[3] for e in s["snap"]]])
+        final = [dump(i) for i in range(n)]
+        return {"log": log, "frames": frames, "final": final, "count": [sum(len(l) for _, l in f) for f in final],
+                "inited": [hasattr(s_, "_eventMixin_handlers") for s_ in srcs],
                 "snaps": {str(k): v for k, v in snaps.items()}, "rmchecks": rmchecks, "addchecks": addchecks, "drops": drops, "subs": subs}
 
     # ------------------------------------------------------------------ model side
     def model_request(self, case):
-        return {"declared": case["declared"], "acceptAll": case["acceptAll"], "fuel": FUEL, "ops": case["ops"], "scripts": case["scripts"]}
+        return {"sources": case["sources"], "fuel": FUEL, "ops": case["ops"], "scripts": case["scripts"]}
 
+    VIEW = ("log", "frames", "final", "count", "inited")
     def impl_view(self, case, obs):
-        return {k: obs[k] for k in ("log", "frames", "final", "count")}
+        return {k: obs[k] for k in self.VIEW}
 
     def model_obs(self, case, resp):
         if "error" in resp: return resp
         if not resp.get("finished"): return {"error": "model out of fuel"}
         out = []
         for e in resp["log"]:
-            if e[0] == "call": out.append(["call", e[1], e[3]])
-            elif e[0] == "ret": out.append(["ret", e[1], e[3], e[4]])
+            if e[0] == "call": out.append(["call", e[1], e[2], e[4]])            # the real handler does not know its subscription id
+            elif e[0] == "ret": out.append(["ret", e[1], e[3], e[4], e[5]])
             else: out.append(e)
-        return {"log": out, "frames": resp["frames"], "final": resp["final"], "count": resp["count"]}
+        r = {k: resp[k] for k in self.VIEW}
+        r["log"] = out
+        return r
 
     # ------------------------------------------------------------------ the property itself, on the implementation's observables
     @staticmethod
-    def _stops(r):
+    def _stops(r, h):
+        """the delivery must not go on after this answer: exception, halting return value, or (the code's rule for
+        event.halt) any answer other than None while the handler or a predecessor has set event.halt"""
         if isinstance(r, list):
             if r[0] == "exc": return True
-            return bool(r[1])                         # tup1 h / tup2 h r
-        return r in ("true", "tup0")
+            return bool(r[1]) or h                    # tup1 h / tup2 h r
+        return r in ("true", "tup0") or (r != "none" and h)
 
     @staticmethod
     def _removes(r):
@@ -324,42 +342,50 @@ class C05(Check):
 
     def oracle(self, case, obs):
         log, snaps = obs["log"], {int(k): v for k, v in obs["snaps"].items()}
-        declared = (lambda et: True) if case["acceptAll"] else (lambda et: et in case["declared"])
+        S_ = case["sources"]
+        declared = lambda i, et: S_[i]["acceptAll"] or et in S_[i]["declared"]          # exact type identity
         sortedok = lambda l: all((a[0], -a[3]) > (b[0], -b[3]) for a, b in zip(l, l[1:]))
         # order of every handler list (as seen at every raise and at the end)
         for fid, s in sorted(snaps.items()):
             if not sortedok(s["snap"]): return "order: handler list of Ev%d not sorted by (priority desc, subscription order)" % s["et"]
-        for k, l in obs["final"]:
-            if not sortedok(l): return "order: final handler list not sorted by (priority desc, subscription order)"
+        for f in obs["final"]:
+            for k, l in f:
+                if not sortedok(l): return "order: final handler list not sorted by (priority desc, subscription order)"
         # exact delivery, per raise (also under re-entrant modification)
         calls, rets = {}, {}
         for i, e in enumerate(log):
-            if e[0] == "call": calls.setdefault(e[1], []).append((i, e[2]))
-            elif e[0] == "ret": rets.setdefault(e[1], []).append((i, e[2], e[3]))
+            if e[0] == "call": calls.setdefault(e[1], []).append((i, e[3], e[2]))
+            elif e[0] == "ret": rets.setdefault(e[1], []).append((i, e[2], e[3], e[4]))
         nested = self._nested(log)
         for fid, s in sorted(snaps.items()):
             S, C, R = s["snap"], calls.get(fid, []), rets.get(fid, [])
             want = [e[1] for e in S]
-            got = [h for _, h in C]
-            rejected = (not declared(s["et"])) and s["form"] == "inst"
-            if rejected:
-                if s["result"] != ["exc", "revent"] or got: return "undeclared: raise of an undeclared event type was not rejected"
+            got = [h for _, h, _ in C]
+            if not declared(s["s"], s["et"]):
+                # an undeclared type has no subscribers; the instance form must be refused outright, the class form never gets to an event
+                if got: return "undeclared: a handler was invoked for an undeclared event type"
+                if s["form"] == "inst" and s["result"] != ["exc", "revent"]:
+                    return "undeclared: raising an instance of an undeclared event type was not rejected (%s)" % (
+                        "subclass of a declared type" if self._has_declared_ancestor(S_[s["s"]], s["et"]) else "unrelated type")
+                if s["form"] == "cls" and s["result"] not in ("none", ["exc", "revent"]):
+                    return "undeclared: class-form raise of an undeclared event type produced an event"
                 continue
+            if any(si != s["s"] for _, _, si in C): return "delivery: handler invoked with an event of another source"
             if got != want[:len(got)]:
                 kind = "repeat" if len(set(got)) < len(got) and len(set(want)) == len(want) else ("extra" if len(got) > len(want) else "order/skip")
                 return "delivery%s: handlers invoked %s, subscribed at the raise %s (%s)" % ("-reentrant" if nested else "", got, want, kind)
-            if any(self._stops(r) for _, _, r in R[:-1]): return "halt: delivery went on after a handler halted it"
-            if len(got) < len(want) and not (R and len(R) == len(C) and self._stops(R[-1][2])):
+            if any(self._stops(r, h) for _, _, r, h in R[:-1]): return "halt: delivery went on after a handler halted it"
+            if len(got) < len(want) and not (R and len(R) == len(C) and self._stops(R[-1][2], R[-1][3])):
                 return "delivery%s: handlers invoked %s, subscribed at the raise %s (skip)" % ("-reentrant" if nested else "", got, want)
             # error suppression
             if s["noerr"] and isinstance(s["result"], list) and s["result"][0] == "exc" and got:
                 return "noerrors: raiseEventNoErrors propagated a handler's %s" % s["result"][1]
             # one-shot / remove-me handlers are not invoked by later raises
-            for j, (pos, hid, r) in enumerate(R):
+            for j, (pos, hid, r, _) in enumerate(R):
                 ent = S[j]
                 raised = isinstance(r, list) and r[0] == "exc"
                 if ent[2] or (not raised and self._removes(r)):
-                    later = [t["snap"] for f2, t in snaps.items() if t["pos"] > pos] + [l for _, l in obs["final"]]
+                    later = [t["snap"] for f2, t in snaps.items() if t["pos"] > pos and t["s"] == s["s"]] + [l for _, l in obs["final"][s["s"]]]
                     if any(e[3] == ent[3] for l in later for e in l):
                         return ("once: one-shot handler that raised %s is still subscribed" % r[1]) if raised else \
                                "once: a one-shot / remove-me handler is still subscribed after it ran"
@@ -374,20 +400,28 @@ class C05(Check):
             dropped = set(a["o"] for a in acts if a["op"] == "drop")
             asking = set(h for h, sl in case["scripts"] for sc_ in sl
                          if sc_["ret"]["k"] == "false" or (sc_["ret"]["k"] == "tup2" and sc_["ret"]["r"]))
-            final = {k: set(e[3] for e in l) for k, l in obs["final"]}
-            for eid, et, hid, once, weak in obs["subs"]:
+            final = [{k: set(e[3] for e in l) for k, l in f} for f in obs["final"]]
+            for si, eid, et, hid, once, weak in obs["subs"]:
                 if once or eid in named_eids or hid in asking or (weak is None and hid in named_hids) or (weak is not None and weak in dropped):
                     continue
-                if eid not in final.get(et, ()):
+                if eid not in final[si].get(et, ()):
                     return "unsubscribe: subscription %d (handler %d) vanished although nothing unsubscribed it" % (eid, hid)
         # undeclared subscription
-        for et, res, unchanged in obs["addchecks"]:
-            if not declared(et) and res != "revent": return "undeclared: subscription to an undeclared event type was not rejected (%s)" % res
-            if not declared(et) and not unchanged: return "undeclared: rejected subscription changed the handler lists"
+        for si, et, res, unchanged in obs["addchecks"]:
+            if not declared(si, et) and res != "revent":
+                return "undeclared: subscription to an undeclared event type was not rejected (%s)" % res
+            if not declared(si, et) and not unchanged: return "undeclared: rejected subscription changed the handler lists"
         # weak handlers go with their owner
         for o, pos, st in obs["drops"]:
-            if any(e[4] == o or e[4] == "dead" for _, l in st for e in l): return "weak: handler of a collected owner is still subscribed"
+            if any(e[4] == o or e[4] == "dead" for f in st for _, l in f for e in l): return "weak: handler of a collected owner is still subscribed"
         return None
+
+    @staticmethod
+    def _has_declared_ancestor(sd, et):
+        while et in PARENT:
+            et = PARENT[et]
+            if et in sd["declared"]: return True
+        return False
 
     @staticmethod
     def _nested(log):
@@ -404,9 +438,10 @@ class C05(Check):
         if failure.startswith("once: one-shot handler that raised"): return "once:handler-raises:still-subscribed"
         if failure.startswith("unsubscribe: subscription"): return "unsubscribe:vanished-without-reason"
         if failure.startswith("order:"): return "order:list-not-sorted"
+        if failure.startswith("undeclared: raising an instance"): return "undeclared:instance-accepted:" + failure.rsplit("(", 1)[1].rstrip(")").replace(" ", "-")
         if failure.startswith("unsubscribe:"):
             return "unsubscribe:" + failure.split("form ")[1].split(" ")[0] + ":" + failure.rsplit("(", 1)[1].rstrip(")")
-        if failure.startswith("delivery"): return failure.split(":")[0] + ":" + failure.rsplit("(", 1)[1].rstrip(")")
+        if failure.startswith("delivery") and "(" in failure: return failure.split(":")[0] + ":" + failure.rsplit("(", 1)[1].rstrip(")")
         return failure.split(":")[0] + ":" + failure.split(":", 1)[1].strip()[:48]
 
     def nontrivial(self, case, obs):
@@ -417,6 +452,10 @@ class C05(Check):
         import copy
         for i in range(len(case["ops"])):
             c = copy.deepcopy(case); del c["ops"][i]; yield c
+        if len(case["sources"]) > 1:                       # everything onto source 0
+            c = copy.deepcopy(case); c["sources"] = c["sources"][:1]
+            for a in c["ops"] + [a for _, sl in c["scripts"] for sc_ in sl for a, _ in sc_["acts"]]: a["s"] = 0
+            yield c
         for si, (hid, sl) in enumerate(case["scripts"]):
             c = copy.deepcopy(case); del c["scripts"][si]; yield c
             for k, sc in enumerate(sl):
@@ -424,86 +463,125 @@ class C05(Check):
                     c = copy.deepcopy(case); del c["scripts"][si][1][k]["acts"][ai]; yield c
                 if sc["ret"]["k"] != "none":
                     c = copy.deepcopy(case); c["scripts"][si][1][k]["ret"] = {"k": "none"}; yield c
+                if sc["halt"] is not None:
+                    c = copy.deepcopy(case); c["scripts"][si][1][k]["halt"] = None; yield c
 
     # ------------------------------------------------------------------ cases
     @staticmethod
-    def add(et, hid, prio=0, once=False, weak=None, via=0):
-        return {"op": "add", "et": et, "hid": hid, "prio": prio, "once": once, "weak": weak, "via": via}
+    def add(et, hid, prio=0, once=False, weak=None, via=0, s=0):
+        return {"op": "add", "s": s, "et": et, "hid": hid, "prio": prio, "once": once, "weak": weak, "via": via}
 
     @staticmethod
-    def raise_(et, form="inst", noerr=False):
-        return {"op": "raise", "et": et, "form": form, "noerr": noerr}
+    def raise_(et, form="inst", noerr=False, s=0):
+        return {"op": "raise", "s": s, "et": et, "form": form, "noerr": noerr}
 
     @staticmethod
-    def sc(acts=(), ret="none", **kw):
+    def sc(acts=(), ret="none", halt=None, **kw):
         r = {"k": ret}; r.update(kw)
-        return {"acts": [[a, g] for a, g in acts], "ret": r}
+        return {"halt": halt, "acts": [[a, g] for a, g in acts], "ret": r}
 
-    def case(self, ops, scripts=(), declared=(0, 1), acceptAll=False, lazy=False):
-        return {"declared": list(declared), "acceptAll": acceptAll, "lazy": lazy, "ops": list(ops), "scripts": [[h, list(l)] for h, l in scripts]}
+    @staticmethod
+    def source(declared=(0, 1), acceptAll=False, lazy=False):
+        return {"declared": list(declared), "acceptAll": acceptAll, "lazy": lazy}
+
+    def case(self, ops, scripts=(), declared=(0, 1), acceptAll=False, lazy=False, sources=None):
+        if sources is None: sources = [self.source(declared, acceptAll, lazy)]
+        return {"sources": sources, "ops": list(ops), "scripts": [[h, list(l)] for h, l in scripts]}
 
     def seeds(self):
-        add, R, sc, case = self.add, self.raise_, self.sc, self.case
-        rme = lambda eid, et=None: {"op": "rme", "eid": eid, "et": et}
-        rmh = lambda hid, et=None: {"op": "rmh", "hid": hid, "et": et}
-        rmp = lambda et, eid, et2=None: {"op": "rmp", "et": et, "eid": eid, "et2": et2}
+        add, R, sc, case, source = self.add, self.raise_, self.sc, self.case, self.source
+        rme = lambda eid, et=None, s=0: {"op": "rme", "s": s, "eid": eid, "et": et}
+        rmh = lambda hid, et=None, s=0: {"op": "rmh", "s": s, "hid": hid, "et": et}
+        rmp = lambda et, eid, et2=None, s=0: {"op": "rmp", "s": s, "et": et, "eid": eid, "et2": et2}
+        cnt = lambda s=0: {"op": "count", "s": s}
+        clr = lambda s=0: {"op": "clear", "s": s}
+        drop = lambda o: {"op": "drop", "s": 0, "o": o}
         S = []
         # D1: A subscribes a prioritised C during delivery
         S.append(case([add(0, 1), add(0, 2), R(0), R(0)], [(1, [sc([(add(0, 3, prio=5), False)])])]))
         # un-prioritised subscription during delivery must not join the in-flight delivery
         S.append(case([add(0, 1), add(0, 2), R(0), R(0, "cls")], [(1, [sc([(add(0, 3), False)])])]))
-        # D28 / D24 / D51
+        # D28 / D24 / D60
         S.append(case([add(0, 1), add(0, 2), rme(1, 0), R(0), rme(2, 1), rme(2, 2)]))
         S.append(case([add(0, 1), R(0, "inst", True), R(0, "cls", True)], [(1, [sc([(add(2, 2), False)]), sc(ret="exc", e="revent")])]))
         S.append(case([add(0, 1, once=True), add(0, 2), R(0, "inst", True), R(0), R(0)], [(1, [sc(ret="exc", e="other")])]))
-        # priorities, stability, halting, removal by return value
+        # priorities (also negative), stability, halting, removal by return value
         S.append(case([add(0, 1), add(0, 2, 5), add(0, 3), add(0, 4, 5), add(0, 5, -1), add(0, 6), R(0), R(0), R(0, "cls")],
                       [(3, [sc(ret="tup2", h=False, r=True), sc()]), (6, [sc(), sc(ret="true")]), (4, [sc(), sc(), sc(ret="tup0")])]))
+        S.append(case([add(0, 1, -1), add(0, 2, -5), add(0, 3, -1), add(0, 4, -3), add(0, 5), R(0), add(0, 6, -2), R(0)]))
         for k, kw in (("false", {}), ("true", {}), ("tup0", {}), ("tup1", {"h": True}), ("tup1", {"h": False}), ("other", {}),
                       ("tup2", {"h": True, "r": True}), ("tup2", {"h": False, "r": True}), ("tup2", {"h": True, "r": False}),
-                      ("tup2", {"h": False, "r": False}), ("exc", {"e": "other"}), ("exc", {"e": "key"})):
+                      ("tup2", {"h": False, "r": False}), ("exc", {"e": "other"}), ("exc", {"e": "key"}), ("none", {})):
             for v in range(4):
-                S.append(case([add(0, 1), add(0, 2, once=(v == 1)), add(0, 3), R(0), R(0, "cls"), {"op": "count"}],
+                S.append(case([add(0, 1), add(0, 2, once=(v == 1)), add(0, 3), R(0), R(0, "cls"), cnt()],
                               [(2, [sc(ret=k, v=v, **kw)])]))
+            # event.halt set by a handler: by the one that answers, by a predecessor, set and cleared again
+            S.append(case([add(0, 1), add(0, 2), add(0, 3), add(0, 4), R(0), R(0, "cls", True)],
+                          [(1, [sc(halt=True), sc()]), (2, [sc(ret=k, **kw), sc(ret=k, halt=True, **kw)]), (3, [sc(ret="other")])]))
+            S.append(case([add(0, 1), add(0, 2), add(0, 3), R(0)],
+                          [(1, [sc(halt=True)]), (2, [sc(halt=False, ret=k, **kw)]), (3, [sc(ret="other", halt=None)])]))
         # nested raise of the same type with a one-shot handler; nested raise of another type; noerrors at depth
         S.append(case([add(0, 1), add(0, 2, once=True), add(0, 3), R(0), R(0)], [(1, [sc([(R(0), False)])])]))
         S.append(case([add(0, 1), add(1, 2), add(1, 3, 5), add(0, 4), R(0), R(1)],
                       [(1, [sc([(R(1, "cls", True), False), (rme(2), False)])]), (3, [sc(ret="exc", e="other"), sc(ret="tup2", h=True, r=True)])]))
         S.append(case([add(0, 1), add(0, 2), add(1, 3), R(0)], [(1, [sc([(R(1), True), (R(1), False)])]), (3, [sc(ret="exc", e="other")] * 2)]))
         # removal forms, missing keys, clear, count
-        S.append(case([add(0, 1), add(1, 1), add(0, 2), rmh(1), R(0), R(1), rmh(2, 0), rmh(2, 1), rmh(2, 2), {"op": "count"}]))
-        S.append(case([add(0, 1), add(1, 2), rmp(0, 1), rmp(1, 2, 0), rmp(0, 2, 1), rmp(2, 1), {"op": "clear"}, rmp(0, 1), rme(1), R(0, "cls"), {"op": "count"}]))
+        S.append(case([add(0, 1), add(1, 1), add(0, 2), rmh(1), R(0), R(1), rmh(2, 0), rmh(2, 1), rmh(2, 2), cnt()]))
+        S.append(case([add(0, 1), add(1, 2), rmp(0, 1), rmp(1, 2, 0), rmp(0, 2, 1), rmp(2, 1), clr(), rmp(0, 1), rme(1), R(0, "cls"), cnt()]))
         # handlers removing others / themselves during delivery
         S.append(case([add(0, 1), add(0, 2), add(0, 3), R(0), R(0)], [(1, [sc([(rmh(2), False), (rme(3), False), (rmh(1), False)])])]))
-        # undeclared
-        S.append(case([add(2, 1), add(2, 1, via=1), add(2, 1, via=3), R(2), R(2, "cls"), R(2, "inst", True), R(2, "cls", True), {"op": "count"}]))
-        S.append(case([add(2, 1), add(2, 2, 3), R(2), R(2, "cls")], declared=[], acceptAll=True))
+        # undeclared, unrelated type
+        S.append(case([add(2, 1), add(2, 1, via=1), add(2, 1, via=3), R(2), R(2, "cls"), R(2, "inst", True), R(2, "cls", True), cnt()]))
+        S.append(case([add(2, 1), add(2, 2, 3), R(2), R(2, "cls"), add(3, 1), R(3), R(5)], declared=[], acceptAll=True))
+        # event-class inheritance: a subclass of a declared type is another, undeclared type ...
+        for d in ([0, 1], [0], [0, 3], [3, 4], [5], [1, 4, 5]):
+            ops = [add(0, 1), add(3, 2), add(5, 3), add(2, 4), add(4, 5)]
+            for et in (0, 3, 5, 2, 4):
+                ops += [R(et), R(et, "cls"), R(et, "inst", True), R(et, "cls", True)]
+            ops += [add(3, 6, via=1), add(5, 6, via=3), add(4, 6, via=2), add(3, 6, via=4),
+                    {"op": "bind", "s": 0, "ets": [0, 2, 3, 4, 5], "base": 100, "prio": 0, "weak": None, "via": 0}, R(0), R(3), R(5), R(4), cnt()]
+            S.append(case(ops, [(1, [sc(), sc([(R(3), True), (R(5, "inst", True), True), (add(3, 7), True)])])], declared=d))
         # by-name spellings
         S.append(case([add(0, 1, via=1), add(0, 2, 5, via=3), add(1, 3, via=2, once=True), add(1, 4, 2, via=4), add(2, 5, via=4), R(0), R(1), R(1)]))
-        # a source whose __init__ never ran: every entry point initialises lazily
-        for first in (R(0), R(0, "cls"), R(0, "inst", True), add(0, 1), rme(1), rmh(1), {"op": "clear"}):
-            S.append(case([first, add(0, 2), R(0)], lazy=True))
+        # a source whose __init__ never ran: every entry point but the counter initialises lazily
+        for first in (R(0), R(0, "cls"), R(0, "inst", True), R(2), add(0, 1), add(2, 1), rme(1), rmh(1), rmp(0, 1), rmh(1, 0), clr(), cnt(), drop(1),
+                      {"op": "bind", "s": 0, "ets": [2], "base": 100, "prio": 0, "weak": None, "via": 0},
+                      {"op": "bind", "s": 0, "ets": [0, 1], "base": 100, "prio": 0, "weak": None, "via": 1}):
+            S.append(case([first, cnt(), add(0, 2), cnt(), R(0)], lazy=True))
+        S.append(case([cnt(), add(0, 1, weak=1), cnt()], lazy=True, acceptAll=True, declared=[]))
         # weak handlers
-        S.append(case([add(0, 1, weak=1), add(0, 2), add(1, 3, weak=1, prio=3), add(0, 4, weak=2), R(0), rmh(1), R(0), {"op": "drop", "o": 1}, R(0), R(1),
-                       {"op": "count"}, {"op": "drop", "o": 2}, R(0), add(0, 1, weak=1), R(0)]))
+        S.append(case([add(0, 1, weak=1), add(0, 2), add(1, 3, weak=1, prio=3), add(0, 4, weak=2), R(0), rmh(1), R(0), drop(1), R(0), R(1),
+                       cnt(), drop(2), R(0), add(0, 1, weak=1), R(0)]))
         # autoBind in its three spellings, strong and weak
         for via in range(3):
-            S.append(case([add(0, 1), {"op": "bind", "ets": [0, 1, 2], "base": 100, "prio": 0, "weak": None, "via": via},
-                           {"op": "bind", "ets": [1, 2], "base": 110, "prio": 4, "weak": 7, "via": via}, R(0), R(1), rmh(101), rmh(111), R(1),
-                           {"op": "drop", "o": 7}, R(1), {"op": "count"}], [(100, [sc(ret="true")])]))
+            S.append(case([add(0, 1), {"op": "bind", "s": 0, "ets": [0, 1, 2], "base": 100, "prio": 0, "weak": None, "via": via},
+                           {"op": "bind", "s": 0, "ets": [1, 2], "base": 110, "prio": 4, "weak": 7, "via": via}, R(0), R(1), rmh(101), rmh(111), R(1),
+                           drop(7), R(1), cnt()], [(100, [sc(ret="true")])]))
+        # two sources: handlers of one subscribe / unsubscribe / raise on the other during delivery; shared id counter; shared owners
+        two = [source([0, 1]), source([0, 3])]
+        S.append(case([add(0, 1, s=0), add(0, 2, s=1), add(0, 3, s=0), add(0, 4, 5, s=1), R(0, s=0), R(0, s=1), cnt(0), cnt(1)],
+                      [(1, [sc([(R(0, s=1), False), (add(0, 5, 9, s=1), False), (rme(2, s=1), False), (R(0, "cls", s=1), True)])]),
+                       (2, [sc([(add(0, 6, 7, s=0), False), (R(1, "cls", s=0), False)], ret="false")]),
+                       (4, [sc(ret="tup1", h=True), sc([(R(0, s=0), True)])])], sources=two))
+        S.append(case([add(0, 1, s=0), add(0, 1, s=1), add(3, 2, s=1), add(3, 2, s=0), R(3, s=1), R(3, s=0), rmh(1, s=1), R(0, s=0), R(0, s=1),
+                       rme(1, s=1), rme(2, s=0), rmp(0, 1, s=0), cnt(0), cnt(1)],
+                      [(2, [sc([(R(0, s=0), False), (R(3, "inst", True, s=0), True)], halt=True, ret="other")])], sources=two))
+        S.append(case([add(0, 1, weak=1, s=0), add(0, 1, weak=1, s=1), add(0, 2, weak=2, s=1), R(0, s=0), R(0, s=1), drop(1), R(0, s=0), R(0, s=1), cnt(0), cnt(1)],
+                      sources=[source([0]), source([0], lazy=True)]))
+        S.append(case([cnt(1), add(0, 1, s=0), cnt(1), R(0, s=0), cnt(1)], [(1, [sc([(cnt(1), True), (R(0, "cls", s=1), False), (cnt(1), False)])])],
+                      sources=[source([0]), source([0], lazy=True)]))
         return S
 
-    ALPHABET = None
     def alphabet(self):
         add, R = self.add, self.raise_
-        return [add(0, 1), add(0, 2), add(0, 2, 5), add(0, 1, once=True), add(0, 2, -1), add(1, 2),
-                R(0), R(0, "cls"), R(0, "inst", True), R(1),
-                {"op": "rmh", "hid": 1, "et": None}, {"op": "rme", "eid": 1, "et": None}, {"op": "rme", "eid": 2, "et": 0},
-                {"op": "rmp", "et": 0, "eid": 1, "et2": None}]
+        return [add(0, 1), add(0, 2), add(0, 2, 5), add(0, 1, once=True), add(0, 2, -1), add(3, 2),
+                R(0), R(0, "cls"), R(0, "inst", True), R(3),
+                {"op": "rmh", "s": 0, "hid": 1, "et": None}, {"op": "rme", "s": 0, "eid": 1, "et": None},
+                {"op": "rme", "s": 0, "eid": 2, "et": 0}, {"op": "rmp", "s": 0, "et": 0, "eid": 1, "et2": None}]
 
     def profiles(self):
         add, R, sc = self.add, self.raise_, self.sc
-        rme = lambda eid: {"op": "rme", "eid": eid, "et": None}
+        rme = lambda eid: {"op": "rme", "s": 0, "eid": eid, "et": None}
         return [
             [],
             [(1, [sc([(add(0, 3, 5), False)])])],
@@ -512,7 +590,7 @@ class C05(Check):
             [(1, [sc(ret="true")]), (2, [sc([(rme(1), False)])])],
             [(1, [sc([(rme(2), False), (add(0, 2, 7), True)], ret="false")])],
             [(1, [sc(ret="exc", e="other")]), (2, [sc([(R(0, "cls", True), False)])])],
-            [(1, [sc([(R(1), False), (add(2, 3), False)])]), (2, [sc([(add(0, 1, 9), False)], ret="tup1", h=False)])],
+            [(1, [sc([(R(1), False), (add(2, 3), False)], halt=True)]), (2, [sc([(add(0, 1, 9), False)], ret="tup1", h=False)])],
         ]
 
     def exhaustive(self, maxlen, profiles=None):
@@ -529,71 +607,71 @@ class C05(Check):
         return self.seeds() + list(self.exhaustive(3))
 
     # random histories
+    ETS = [0, 0, 0, 0, 1, 1, 2, 3, 3, 4, 5]
     def rand_action(self, rng, ctx, depth):
         x = rng.random()
-        ets = [0, 0, 0, 1, 1, 2]
-        et_or_none = lambda: rng.choice([None, None, None, 0, 1, 2])
+        s = rng.randrange(ctx["nsrc"])
+        ets = self.ETS
+        et_or_none = lambda: rng.choice([None, None, None, None, 0, 1, 2, 3])
         if x < 0.30:
             ctx["adds"] += 1
             weak = rng.choice([1, 2, 3]) if rng.random() < 0.15 else None
-            return self.add(rng.choice(ets), rng.randint(1, 6), rng.choice([0, 0, 0, 0, 5, 5, -1, 7, 3]), rng.random() < 0.25, weak, rng.randint(0, 4) if rng.random() < 0.3 else 0)
+            a = self.add(rng.choice(ets), rng.randint(1, 6), rng.choice([0, 0, 0, 0, 5, 5, -1, -4, 7, 3]), rng.random() < 0.25, weak,
+                         rng.randint(0, 4) if rng.random() < 0.3 else 0, s)
+            if ctx["acceptAll"][s] and a["via"] in (1, 3, 4): a["via"] = 0          # by-name needs a declared set
+            return a
         if x < 0.36:
-            return {"op": "rmh", "hid": rng.choice([1, 2, 3, 4, 5, 6, 100, 101, 111]), "et": et_or_none()}
+            return {"op": "rmh", "s": s, "hid": rng.choice([1, 2, 3, 4, 5, 6, 110, 111, 113]), "et": et_or_none()}
         if x < 0.46:
-            return {"op": "rme", "eid": rng.randint(0, ctx["adds"] + 1), "et": et_or_none()}
+            return {"op": "rme", "s": s, "eid": rng.randint(0, ctx["adds"] + 1), "et": et_or_none()}
         if x < 0.52:
-            return {"op": "rmp", "et": rng.choice(ets), "eid": rng.randint(0, ctx["adds"] + 1), "et2": et_or_none()}
-        if x < 0.54: return {"op": "clear"}
-        if x < 0.58: return {"op": "count"}
-        if x < 0.63 and depth == 0: return {"op": "drop", "o": rng.choice([1, 2, 3] + ctx["sinkowners"])}
-        if x < 0.67 and not ctx["acceptAll"]:
+            return {"op": "rmp", "s": s, "et": rng.choice(ets), "eid": rng.randint(0, ctx["adds"] + 1), "et2": et_or_none()}
+        if x < 0.54: return {"op": "clear", "s": s}
+        if x < 0.59: return {"op": "count", "s": s}
+        if x < 0.63 and depth == 0: return {"op": "drop", "s": 0, "o": rng.choice([1, 2, 3] + ctx["sinkowners"])}
+        if x < 0.67 and depth == 0 and not ctx["acceptAll"][s]:                     # sinks are bound at top level only (fresh identities)
             ctx["binds"] += 1
             weak = None
             if rng.random() < 0.4:
                 weak = 10 + ctx["binds"]; ctx["sinkowners"].append(weak)
-            ets_ = sorted(rng.sample([0, 1, 2], rng.randint(1, 3)))
+            ets_ = sorted(rng.sample(range(N_ET), rng.randint(1, 4)))
             ctx["adds"] += len(ets_)
-            return {"op": "bind", "ets": ets_, "base": 100 + 10 * ctx["binds"], "prio": rng.choice([0, 0, 4, -2]), "weak": weak, "via": rng.randint(0, 2)}
-        return self.raise_(rng.choice(ets), rng.choice(["inst", "inst", "cls"]), rng.random() < 0.3)
+            return {"op": "bind", "s": s, "ets": ets_, "base": 100 + 10 * ctx["binds"], "prio": rng.choice([0, 0, 4, -2]), "weak": weak, "via": rng.randint(0, 2)}
+        return self.raise_(rng.choice(ets), rng.choice(["inst", "inst", "cls"]), rng.random() < 0.3, s)
 
     def rand_ret(self, rng):
         x = rng.random()
         if x < 0.45: return {"k": "none"}
-        k = rng.choice(["false", "true", "tup0", "tup1", "tup2", "tup2", "tup2", "other", "exc"])
+        k = rng.choice(["false", "true", "tup0", "tup1", "tup2", "tup2", "tup2", "other", "other", "exc"])
         r = {"k": k, "v": rng.randint(0, 11)}
         if k in ("tup1", "tup2"): r["h"] = rng.random() < 0.4
         if k == "tup2": r["r"] = rng.random() < 0.5
         if k == "exc": r["e"] = rng.choice(["other", "other", "other", "key", "revent"])
         return r
 
+    DECL = [[0, 1], [0, 1], [0, 1, 2], [0], [0, 3], [3, 4], [0, 1, 5], [1, 3, 5]]
     def rand_case(self, rng, nops):
-        acceptAll = rng.random() < 0.08
-        declared = [] if acceptAll else rng.choice([[0, 1], [0, 1], [0, 1, 2], [0]])
-        ctx = {"adds": 0, "binds": 0, "sinkowners": [], "acceptAll": acceptAll}
+        nsrc = 2 if rng.random() < 0.3 else 1
+        sources = []
+        for _ in range(nsrc):
+            acceptAll = rng.random() < 0.08
+            sources.append(self.source([] if acceptAll else rng.choice(self.DECL), acceptAll, rng.random() < 0.12))
+        ctx = {"adds": 0, "binds": 0, "sinkowners": [], "nsrc": nsrc, "acceptAll": [sd["acceptAll"] for sd in sources]}
         ops = [self.rand_action(rng, ctx, 0) for _ in range(nops)]
-        if acceptAll:
-            for a in ops:
-                if a["op"] == "add": a["via"] = a["via"] if a["via"] in (0, 2) else 0      # by-name needs a declared set
         scripts = []
         hids = [1, 2, 3, 4, 5, 6] + [100 + 10 * b + et for b in range(1, ctx["binds"] + 1) for et in range(N_ET)]
         for hid in hids:
-            if rng.random() < (0.6 if hid < 100 else 0.3):
+            if rng.random() < (0.6 if hid < 100 else 0.25):
                 sl = []
                 for _ in range(rng.randint(1, 3)):
-                    acts = []
-                    for _ in range(rng.choice([0, 0, 1, 1, 2, 3])):
-                        a = self.rand_action(rng, ctx, 1)
-                        if a["op"] == "bind": continue                         # sinks are bound at top level only (fresh identities)
-                        if acceptAll and a["op"] == "add" and a["via"] in (1, 3, 4): a["via"] = 0
-                        acts.append([a, rng.random() < 0.5])
-                    sl.append({"acts": acts, "ret": self.rand_ret(rng)})
+                    acts = [[self.rand_action(rng, ctx, 1), rng.random() < 0.5] for _ in range(rng.choice([0, 0, 1, 1, 2, 3]))]
+                    halt = rng.choice([True, True, False]) if rng.random() < 0.15 else None
+                    sl.append({"halt": halt, "acts": acts, "ret": self.rand_ret(rng)})
                 scripts.append([hid, sl])
-        # (the private helper _eventMixin_get_listener_count assumes an initialised source: no `count` before the first initialising op)
-        lazy = rng.random() < 0.1 and ops[0]["op"] in ("add", "raise", "rmh", "rme", "rmp", "bind", "clear")
-        return {"declared": declared, "acceptAll": acceptAll, "lazy": lazy, "ops": ops, "scripts": scripts}
+        return {"sources": sources, "ops": ops, "scripts": scripts}
 
     def generate(self, rng, tier):
-        n = 700 if tier == "quick" else 10000
+        n = 800 if tier == "quick" else 10000
         for _ in range(n):
             yield self.rand_case(rng, rng.choice([3, 5, 8, 12, 20, 40, 80]))
         if tier == "thorough":
